@@ -6,7 +6,12 @@ from fractions import Fraction
 
 import numpy as np
 
-TOL = 1e-9  # relative tolerance of the `Boundary` class (DESIGN.md 3.3)
+def round_off_tol(n):
+    """Relative (to the largest |metric| in the rung) size of the `Boundary` class for a rung with n entries: a bound on the
+    round-off of the binary64 evaluation of Rung.quantile, 8 (n + 1) half-ulps. The error of q = r/r' and of
+    virt_index = (n-1) q + 1 is at most 3 n half-ulps, it enters the cutoff through frac_part * (v1 - v0), the final
+    g v1 + (1-g) v0 adds 3 more. Nothing wider is accepted: "equal up to round-off may go either way"."""
+    return 8 * (n + 1) * 2.0 ** -53
 
 
 class OneHotBrackets:
@@ -120,8 +125,8 @@ def gen_rung_params(rng):
     return p
 
 
-def rel_close(a, b, scale):
-    return abs(a - b) <= TOL * max(scale, 1e-300)
+def rel_close(a, b, scale, n):
+    return abs(a - b) <= round_off_tol(n) * scale
 
 
 def ceil_div(a, b):
